@@ -75,3 +75,27 @@ Proof.
   intros Sh. cbv zeta. pose proof (C12_observation n (conv s) Sh) as H. unfold M.observe in H.
   rewrite mask_src. injection H as H. rewrite H. reflexivity.
 Qed.
+
+(* ---- whole episodes of the translated step: the steps up to and including the first LAST ---- *)
+Fixpoint run_src (rnd : Z -> Z) (sparse : bool) (s : State) (acts : list Z) : list (State * tstep) :=
+  match acts with
+  | [] => []
+  | a :: r => let p := step rnd (reward_src sparse) s a in p :: (if st (snd p) =? LAST then [] else run_src rnd sparse (fst p) r)
+  end.
+Definition cp (p : State * tstep) : M.state * tstep := (conv (fst p), snd p).
+Lemma run_src_eq rnd sparse acts : forall s, map cp (run_src rnd sparse s acts) = run rnd sparse (conv s) acts.
+Proof.
+  induction acts as [|a r IH]; intros s; cbn [run_src run map]; [reflexivity|].
+  destruct (step_src rnd sparse s a) as [E1 E2]. unfold cp at 1. rewrite E1, E2, <- surjective_pairing. f_equal.
+  destruct (st (snd (M.step_r rnd sparse (conv s) a)) =? LAST); [reflexivity|]. rewrite IH, E1. reflexivity.
+Qed.
+(* C11: an episode of the translated step lasts at most max(1, number of unpacked items) steps *)
+Lemma src_horizon n rnd sparse acts s : M.shape n (conv s) -> Forall (fun a => 0 <= a < n) acts ->
+  Z.of_nat (length (run_src rnd sparse s acts)) <= Z.max 1 (M.unpacked (conv s)).
+Proof.
+  intros Sh F. rewrite <- (map_length cp), run_src_eq. exact (C11_horizon n rnd sparse acts (conv s) Sh F).
+Qed.
+(* C08: with exact arithmetic the dense return of an episode of the translated step is the value packed by it *)
+Lemma src_dense_return n acts s : M.shape n (conv s) -> Forall (fun a => 0 <= a < n) acts ->
+  let tr := map cp (run_src M.rid false s acts) in ret tr = M.packed_value (final tr (conv s)) - M.packed_value (conv s).
+Proof. intros Sh F. cbv zeta. rewrite run_src_eq. exact (C08_dense_return n acts (conv s) Sh F). Qed.
